@@ -93,6 +93,11 @@ pub(super) fn generate_chain_method(
         crate_path,
     );
 
+    // A streaming method asks for more replies in a chain as well.
+    let set_more = method_attrs
+        .is_streaming
+        .then(|| quote! { let call = call.set_more(true); });
+
     // Generate the implementation method
     let impl_method = quote! {
         fn #chain_method_name<#all_generics>(
@@ -104,6 +109,7 @@ pub(super) fn generate_chain_method(
         #chain_where
         {
             #method_call_creation
+            #set_more
             self.chain_call(&call)
         }
     };
